@@ -407,7 +407,50 @@ def distribution(c):
     return d
 
 
+F_SINGLE = "C13-seq-generation-single-output-dropped"
+F_DICT = "C13-seq-generation-dict-elements-dropped"
+
+
+def _is_mapped(fd):
+    return bool(fd.get("spec") and fd["spec"]["i"])
+
+
 def finding_id(c, impl_obs, kind):
+    """Known findings: in the sequential path (no executor) a generation is post-processed only after ALL of its
+    functions ran, so when one of them raises (a) the value of a function without MapSpec inputs that already ran in
+    that generation is never written, (b) with storage='dict' (no dump_in_subprocess) the elements computed in that
+    generation are never dumped.  The id is returned only when the rest of the observation is as the property
+    demands (raised unchanged, note, failing call last, snapshot) and the store shows exactly that loss."""
+    if c["kind"] != "map" or c["mode"] != "seq" or c["idx"] < 0:
+        return None
+    try:
+        res, note, lines, snap, store = impl_obs
+    except Exception:  # noqa: BLE001
+        return None
+    cls, args = exc_desc(c["exc"])
+    if res != ["raised", cls, args] or note[:2] != ["note", c["ffn"]] or not lines or lines[-1] != c["tgt"]:
+        return None
+    if snap[:2] != ["snap", c["ffn"]] or snap[3:] != [[cls, args]] * 3:
+        return None
+    by_name = {f["name"]: f for f in c["req"]["funcs"]}
+    gen = next((g for g in c["gens"] if c["ffn"] in g), None)
+    if gen is None:
+        return None
+    stored = {o: v for o, v in store}
+    before = gen[: gen.index(c["ffn"])]
+    for n in before:
+        if not _is_mapped(by_name[n]) and all(stored.get(o) == ["none"] for o in by_name[n]["outs"]):
+            return F_SINGLE
+    if c["req"]["storage"] == "dict":
+        ncalls_f = sum(1 for ln in lines[:-1] if ln.split("(", 1)[0] == c["ffn"])
+        cands = [n for n in before if _is_mapped(by_name[n])]
+        if _is_mapped(by_name[c["ffn"]]) and ncalls_f > 0:
+            cands.append(c["ffn"])
+        for n in cands:
+            for o in by_name[n]["outs"]:
+                v = stored.get(o)
+                if isinstance(v, list) and v and v[0] == "arr" and all(x == "--" for x in v[2]):
+                    return F_DICT
     return None
 
 
